@@ -1,4 +1,5 @@
 import PewProofs.Npz
+import PewProofs.NpzHist
 
 /-! # C01 — property theorems (statements only depend on `PewModel.Npz`) -/
 namespace Pew.Npz
@@ -81,44 +82,31 @@ example : ∀ x : Rat, |id x - x| ≤ |x| / 2 ^ 53 := by
   intro x; simp only [id, sub_self, abs_zero]; positivity
 
 /-- **Saving then loading gives the laser back**: for every laser inside the quantifier
-(`Laser.ok`: at least one element, distinct element names without trailing NUL, one calibration per
-element in element order, every calibration `Cal.ok`, class and configuration matching, one layer or ≥ 2 layers of
-equal shape, packed info not ending in NUL) `load (save L)` succeeds and returns `normalise L`:
-data, dtypes, names, calibrations and configuration identical; info with tabs as spaces, without the
-old `File Path`, plus `Name` / `File Path` / `File Version`. -/
+(`Laser.ok`: at least one element, distinct element names without trailing NUL, exactly one calibration
+per element **in any order of the calibration dict**, every calibration `Cal.ok`, class and configuration
+matching, one layer or ≥ 2 layers of equal shape, packed info not ending in NUL) `load (save L)` succeeds
+and returns `normalise L`: data, dtypes, names and configuration identical, every element with the
+calibration the saved laser held under that element's name (`calByName`); info with tabs as spaces,
+without the old `File Path`, plus `Name` / `File Path` / `File Version`. -/
 theorem load_save (fl : Rat → Rat) (hfl : ∀ x, |fl x - x| ≤ |x| / 2 ^ 53) (p : PathInfo) (ver time : Str)
     (L : Laser) (hL : L.ok = true) (hv : versionOk ver = true) (ht : noNulEnd time = true) :
     (save fl ver time L >>= load fl p) = .ok (normalise p ver L) := by
-  simp only [Laser.ok, Bool.and_eq_true, decide_eq_true_eq, beq_iff_eq, List.all_eq_true] at hL
-  obtain ⟨⟨⟨⟨⟨⟨⟨⟨hne, hnul⟩, hnodup⟩, hkeys⟩, hcal⟩, hkind⟩, hcfg⟩, hlayers⟩, hinfo⟩ := hL
+  have F := okFacts L hL
   obtain ⟨htab, ⟨r7, hr7, hr7'⟩, ⟨r8, hr8, hr8'⟩⟩ := versionOk_cases ver hv
-  obtain ⟨d, hd, hdf, hcons⟩ := data_roundtrip L hlayers
+  obtain ⟨d, hd, hdf, hcons⟩ := data_roundtrip L F.layers F.native
   have hhdr := header_unpack ver (classOf L.config) time ht
   rw [tabToSpace_of_tabFree ver htab, tabToSpace_classOf] at hhdr
-  have hcalrt : unpackCalibration (packCalibration L.cal) = L.cal := by
-    apply calibrations_roundtrip
-    · rw [hkeys]; exact hnodup
-    · intro kc hkc
-      apply hnul
-      rw [← hkeys]
-      exact List.mem_map_of_mem hkc
-    · intro kc hkc; exact hcal kc hkc
+  have hcalrt : unpackCalibration (packCalibration L.cal) = L.cal :=
+    unpack_pack_of_facts L F calibrations_roundtrip
   have hkindeq : (if L.config.isSRR then Kind.srr else Kind.laser) = L.kind := by
+    have := F.kind
     cases hk : L.kind <;> cases hc : L.config.isSRR <;> simp_all
-  have hmk : ∀ info, mkLaser L.kind L.fields L.layers L.cal L.config info = { L with info := info } := by
-    intro info
-    unfold mkLaser
-    have : dictUpdate (L.fields.map fun f => (f.1, Cal.default)) L.cal = L.cal := by
-      apply dictUpdate_same_keys
-      · rw [hkeys]; simp [keys, List.map_map, Function.comp_def]
-      · rw [hkeys]; exact hnodup
-    rw [this]
   have h1 : kVersion ≠ kClass := by decide
-  have hce : L.cal.isEmpty = false := cal_nonempty L hne hkeys
+  have hce : L.cal.isEmpty = false := cal_nonempty L F
   simp only [save, hce, Bool.false_eq_true, if_false, hd, bind, Except.bind, pure, Except.pure]
   simp only [load, loadHeader, loadInfo, loadCal, hhdr, dictGet, getOr, bind, Except.bind, pure, Except.pure,
     if_true, if_neg h1.symm, if_neg h1, hr7, hr8, if_neg hr7', if_neg hr8', hcalrt,
-    config_roundtrip fl hfl L.config hcfg, hkindeq, hcons, hmk, unpack_pack_info L.info hinfo]
+    config_roundtrip fl hfl L.config F.cfg, hkindeq, hcons, mkLaser_calByName L F, unpack_pack_info L.info F.info]
   rfl
 
 /-- non-vacuity of `load_save`: a 2-element raster laser (a 3-point `1/x` calibration with a
@@ -138,6 +126,14 @@ def exSRRLaser : Laser :=
 
 example : exLaser.ok = true ∧ exSRRLaser.ok = true := by decide +kernel
 
+/-- the same laser after `c = laser.calibration.pop("A"); laser.calibration["A"] = c`: the calibration
+dict lists `A` last, the data fields are unchanged; inside the quantifier, and its by-name form is the
+dict of `exLaser` -/
+def exLaserPerm : Laser := { exLaser with cal := [(['B','\t','b'], exCalCustom), (['A'], exCalX)] }
+
+example : exLaserPerm.ok = true ∧ keys exLaserPerm.cal ≠ keys exLaserPerm.fields
+    ∧ calByName exLaserPerm.fields exLaserPerm.cal = exLaser.cal := by decide +kernel
+
 /-! ## historical layouts -/
 
 /-- a 0.7-generation file of `L` (`_version`, `_class`, packed info, one `calibration_<element>`
@@ -145,30 +141,29 @@ member per element, each with its own length) loads to `normalise L` with that f
 theorem load_saveV07 (fl : Rat → Rat) (hfl : ∀ x, |fl x - x| ≤ |x| / 2 ^ 53) (p : PathInfo) (ver : Str)
     (L : Laser) (hL : L.ok = true) (hv : version07Ok ver = true) :
     (saveV07 fl ver L >>= load fl p) = .ok (normalise p ver L) := by
-  simp only [Laser.ok, Bool.and_eq_true, decide_eq_true_eq, beq_iff_eq, List.all_eq_true] at hL
-  obtain ⟨⟨⟨⟨⟨⟨⟨⟨hne, hnul⟩, hnodup⟩, hkeys⟩, hcal⟩, hkind⟩, hcfg⟩, hlayers⟩, hinfo⟩ := hL
+  have F := okFacts L hL
   simp only [version07Ok, Bool.and_eq_true] at hv
   obtain ⟨⟨⟨hvn, h6⟩, h7⟩, h8⟩ := hv
   obtain ⟨r6, hr6, hr6'⟩ := cmpGe_cases _ _ h6
   obtain ⟨r7, hr7, hr7'⟩ := cmpGe_cases _ _ h7
   have hr8 := cmpLt_cases _ _ h8
-  obtain ⟨d, hd, hdf, hcons⟩ := data_roundtrip L hlayers
+  obtain ⟨d, hd, hdf, hcons⟩ := data_roundtrip L F.layers F.native
   have hkindeq : (if L.config.isSRR then Kind.srr else Kind.laser) = L.kind := by
+    have := F.kind
     cases hk : L.kind <;> cases hc : L.config.isSRR <;> simp_all
-  have hmk : ∀ info, mkLaser L.kind L.fields L.layers L.cal L.config info = { L with info := info } := by
-    intro info
-    unfold mkLaser
-    have : dictUpdate (L.fields.map fun f => (f.1, Cal.default)) L.cal = L.cal := by
-      apply dictUpdate_same_keys
-      · rw [hkeys]; simp [keys, List.map_map, Function.comp_def]
-      · rw [hkeys]; exact hnodup
-    rw [this]
-  have hfold := foldlM_calibrationOf L.cal (by rw [hkeys]; exact hnodup) hcal [] L.cal L.fields rfl hkeys.symm
+  have hfold := foldlM_calibrationOf L.cal F.cal [] L.fields F.nodup (by intro k _; simp [keys]) F.fsub
   simp only [saveV07, hd, bind, Except.bind, pure, Except.pure]
   simp only [load, loadHeader, loadInfo, loadCal, stripNul_of_noNulEnd ver hvn, getOr, bind, Except.bind, pure,
     Except.pure, hr6, hr7, hr8, if_neg hr6', if_neg hr7', if_true, hdf]
-  simp only [getOr, bind, Except.bind, pure, Except.pure] at hfold
-  simp only [hfold, config_roundtrip fl hfl L.config hcfg, hkindeq, hcons, hmk, unpack_pack_info L.info hinfo]
+  simp only [getOr, bind, Except.bind, pure, Except.pure, List.nil_append] at hfold
+  have hmk : ∀ info, mkLaser L.kind L.fields L.layers (calByName L.fields L.cal) L.config info
+      = { L with cal := calByName L.fields L.cal, info := info } := by
+    intro info
+    have := mkLaser_calByName { L with cal := calByName L.fields L.cal }
+      (okFacts _ (ok_calByName L hL)) info
+    simp only [calByName_idem L.fields L.cal F.nodup] at this
+    exact this
+  simp only [hfold, config_roundtrip fl hfl L.config F.cfg, hkindeq, hcons, hmk, unpack_pack_info L.info F.info]
   rfl
 
 /-- a 0.6-generation file of `L` (only a `name` member instead of the info) loads to `L` with the
@@ -177,34 +172,34 @@ theorem load_saveV06 (fl : Rat → Rat) (hfl : ∀ x, |fl x - x| ≤ |x| / 2 ^ 5
     (L : Laser) (hL : L.ok = true) (hv : version06Ok ver = true)
     (hname : noNulEnd ((dictGet L.info kName).getD []) = true) :
     (saveV06 fl ver L >>= load fl p) = .ok (normaliseV06 p ver L) := by
-  simp only [Laser.ok, Bool.and_eq_true, decide_eq_true_eq, beq_iff_eq, List.all_eq_true] at hL
-  obtain ⟨⟨⟨⟨⟨⟨⟨⟨hne, hnul⟩, hnodup⟩, hkeys⟩, hcal⟩, hkind⟩, hcfg⟩, hlayers⟩, hinfo⟩ := hL
+  have F := okFacts L hL
   simp only [version06Ok, Bool.and_eq_true] at hv
   obtain ⟨⟨⟨hvn, h6⟩, h7⟩, h8⟩ := hv
   obtain ⟨r6, hr6, hr6'⟩ := cmpGe_cases _ _ h6
   have hr7 := cmpLt_cases _ _ h7
   have hr8 := cmpLt_cases _ _ h8
-  obtain ⟨d, hd, hdf, hcons⟩ := data_roundtrip L hlayers
+  obtain ⟨d, hd, hdf, hcons⟩ := data_roundtrip L F.layers F.native
   have hkindeq : (if L.config.isSRR then Kind.srr else Kind.laser) = L.kind := by
+    have := F.kind
     cases hk : L.kind <;> cases hc : L.config.isSRR <;> simp_all
-  have hmk : ∀ info, mkLaser L.kind L.fields L.layers L.cal L.config info = { L with info := info } := by
-    intro info
-    unfold mkLaser
-    have : dictUpdate (L.fields.map fun f => (f.1, Cal.default)) L.cal = L.cal := by
-      apply dictUpdate_same_keys
-      · rw [hkeys]; simp [keys, List.map_map, Function.comp_def]
-      · rw [hkeys]; exact hnodup
-    rw [this]
-  have hfold := foldlM_calibrationOf L.cal (by rw [hkeys]; exact hnodup) hcal [] L.cal L.fields rfl hkeys.symm
+  have hfold := foldlM_calibrationOf L.cal F.cal [] L.fields F.nodup (by intro k _; simp [keys]) F.fsub
   simp only [saveV06, hd, bind, Except.bind, pure, Except.pure]
   simp only [load, loadHeader, loadInfo, loadCal, stripNul_of_noNulEnd ver hvn, stripNul_of_noNulEnd _ hname,
     getOr, bind, Except.bind, pure, Except.pure, hr6, hr7, hr8, if_neg hr6', if_true, hdf]
-  simp only [getOr, bind, Except.bind, pure, Except.pure] at hfold
-  simp only [hfold, config_roundtrip fl hfl L.config hcfg, hkindeq, hcons, hmk]
+  simp only [getOr, bind, Except.bind, pure, Except.pure, List.nil_append] at hfold
+  have hmk : ∀ info, mkLaser L.kind L.fields L.layers (calByName L.fields L.cal) L.config info
+      = { L with cal := calByName L.fields L.cal, info := info } := by
+    intro info
+    have := mkLaser_calByName { L with cal := calByName L.fields L.cal }
+      (okFacts _ (ok_calByName L hL)) info
+    simp only [calByName_idem L.fields L.cal F.nodup] at this
+    exact this
+  simp only [hfold, config_roundtrip fl hfl L.config F.cfg, hkindeq, hcons, hmk]
   rfl
 
 /-- **The three layouts agree.**  Files describing `L` in the 0.6, 0.7 and 0.8+ layouts all load,
-and to the same laser: identical kind, fields, data layers, calibrations and configuration; the
+and to the same laser: identical kind, fields, data layers and configuration, every element with the
+calibration `L` holds under its name (whatever the order of `L`'s calibration dict); the
 0.7 and 0.8+ infos are both `infoSpec L.info` finished with their own file version, the 0.6 info
 is the name finished the same way. -/
 theorem layouts_agree (fl : Rat → Rat) (hfl : ∀ x, |fl x - x| ≤ |x| / 2 ^ 53) (p : PathInfo)
@@ -213,9 +208,9 @@ theorem layouts_agree (fl : Rat → Rat) (hfl : ∀ x, |fl x - x| ≤ |x| / 2 ^ 
     (hname : noNulEnd ((dictGet L.info kName).getD []) = true) :
     ∃ A B C, (saveV06 fl v06 L >>= load fl p) = .ok A ∧ (saveV07 fl v07 L >>= load fl p) = .ok B ∧
       (save fl ver time L >>= load fl p) = .ok C ∧
-      (A.kind = L.kind ∧ A.fields = L.fields ∧ A.layers = L.layers ∧ A.cal = L.cal ∧ A.config = L.config) ∧
-      (B.kind = L.kind ∧ B.fields = L.fields ∧ B.layers = L.layers ∧ B.cal = L.cal ∧ B.config = L.config) ∧
-      (C.kind = L.kind ∧ C.fields = L.fields ∧ C.layers = L.layers ∧ C.cal = L.cal ∧ C.config = L.config) ∧
+      (A.kind = L.kind ∧ A.fields = L.fields ∧ A.layers = L.layers ∧ A.cal = calByName L.fields L.cal ∧ A.config = L.config) ∧
+      (B.kind = L.kind ∧ B.fields = L.fields ∧ B.layers = L.layers ∧ B.cal = calByName L.fields L.cal ∧ B.config = L.config) ∧
+      (C.kind = L.kind ∧ C.fields = L.fields ∧ C.layers = L.layers ∧ C.cal = calByName L.fields L.cal ∧ C.config = L.config) ∧
       A.info = finishInfo p v06 [(kName, (dictGet L.info kName).getD [])] ∧
       B.info = finishInfo p v07 (infoSpec L.info) ∧ C.info = finishInfo p ver (infoSpec L.info) :=
   ⟨_, _, _, load_saveV06 fl hfl p v06 L hL h6 hname, load_saveV07 fl hfl p v07 L hL h7,
@@ -314,20 +309,27 @@ theorem load_fixpoint (fl : Rat → Rat) (hfl : ∀ x, |fl x - x| ≤ |x| / 2 ^ 
     (save fl ver time (normalise p ver L) >>= load fl p) = .ok (normalise p ver (normalise p ver L))
     ∧ (normalise p ver (normalise p ver L)).same (normalise p ver L)
     ∧ normalise p ver (normalise p ver (normalise p ver L)) = normalise p ver (normalise p ver L) := by
+  have F := okFacts L hL
   have hvc : ver.all (fun c => c.isDigit || c == '.') = true := by
     simp only [versionOk, Bool.and_eq_true] at hv; exact hv.1.1
   have hst' : '\t' ∉ p.stem := by simpa [tabFree] using hst
   have g : Good p ver (finishInfo p ver (infoSpec L.info)) :=
     good_finish p ver L.info hi hst' hsn (tabFree_of_version ver hvc) (noNulEnd_of_version ver hvc)
   have g2 := good_next p ver _ g
-  have e1 : normalise p ver (normalise p ver L) = { L with info := nextInfo p (finishInfo p ver (infoSpec L.info)) } := by
-    simp only [normalise, finish_spec_good p ver _ g]
+  have hidem := calByName_idem L.fields L.cal F.nodup
+  have e1 : normalise p ver (normalise p ver L)
+      = { L with cal := calByName L.fields L.cal, info := nextInfo p (finishInfo p ver (infoSpec L.info)) } := by
+    simp only [normalise, finish_spec_good p ver _ g, hidem]
   refine ⟨?_, ?_, ?_⟩
-  · exact load_save fl hfl p ver time _ (ok_with_info L _ hL (noNulEnd_packInfoRaw _ g.nonul)) hv ht
+  · have hN : (normalise p ver L).ok = true := by
+      have := ok_with_info { L with cal := calByName L.fields L.cal } (finishInfo p ver (infoSpec L.info))
+        (ok_calByName L hL) (noNulEnd_packInfoRaw _ g.nonul)
+      simpa only [normalise] using this
+    exact load_save fl hfl p ver time (normalise p ver L) hN hv ht
   · rw [e1]
-    exact ⟨rfl, rfl, rfl, rfl, rfl, fun k => dictGet_nextInfo p ver _ g k⟩
+    exact ⟨rfl, rfl, rfl, fun _ => rfl, rfl, fun k => dictGet_nextInfo p ver _ g k⟩
   · rw [e1]
-    simp only [normalise, finish_spec_good p ver _ g2, nextInfo_idem]
+    simp only [normalise, finish_spec_good p ver _ g2, nextInfo_idem, hidem]
 
 /-- **Chains of any length.**  One generation gives `normalise L`; every chain of two or more
 generations gives exactly `normalise (normalise L)`, which is the same object as `normalise L`
@@ -337,17 +339,20 @@ theorem generations_fixpoint (fl : Rat → Rat) (hfl : ∀ x, |fl x - x| ≤ |x|
     (hi : infoNoNul L.info = true) (hst : tabFree p.stem = true) (hsn : noNulEnd p.stem = true) (n : Nat) :
     generations fl ver time p 1 L = .ok (normalise p ver L)
     ∧ generations fl ver time p (n + 2) L = .ok (normalise p ver (normalise p ver L)) := by
+  have F := okFacts L hL
   have hvc : ver.all (fun c => c.isDigit || c == '.') = true := by
     simp only [versionOk, Bool.and_eq_true] at hv; exact hv.1.1
   have hst' : '\t' ∉ p.stem := by simpa [tabFree] using hst
   have g : Good p ver (finishInfo p ver (infoSpec L.info)) :=
     good_finish p ver L.info hi hst' hsn (tabFree_of_version ver hvc) (noNulEnd_of_version ver hvc)
+  have hidem := calByName_idem L.fields L.cal F.nodup
   have h1 : generations fl ver time p 1 L = .ok (normalise p ver L) := by
     rw [generations_succ, load_save fl hfl p ver time L hL hv ht]; rfl
   refine ⟨h1, ?_⟩
   rw [generations_succ, load_save fl hfl p ver time L hL hv ht]
-  have := generations_good fl p ver time (fun L' h => load_save fl hfl p ver time L' h hv ht) L hL n _ g
-  simp only [normalise, finish_spec_good p ver _ g] at this ⊢
+  have := generations_good fl p ver time (fun L' h => load_save fl hfl p ver time L' h hv ht)
+    { L with cal := calByName L.fields L.cal } (ok_calByName L hL) hidem n _ g
+  simp only [normalise, finish_spec_good p ver _ g, hidem] at this ⊢
   exact this
 
 /-- non-vacuity of the fixpoint hypotheses: info with colliding keys and a `File Path` entry -/
@@ -461,7 +466,7 @@ theorem loadV06_eq_spec (fl : Rat → Rat) (hfl : ∀ x, |fl x - x| ≤ |x| / 2 
   · rw [load_saveV06 fl hfl p ver L hL hv hname]
     simp only [version06Ok, Bool.and_eq_true] at hv
     rw [specOld_of_cmpGe _ _ _ _ hv.1.1.2]; rfl
-  · obtain ⟨f, hf, hh, hfv⟩ := saveV06_ok fl ver L (layersOk_of_ok L hL)
+  · obtain ⟨f, hf, hh, hfv⟩ := saveV06_ok fl ver L (layersOk_of_ok L hL) (native_of_ok L hL)
     rw [stripNul_of_noNulEnd ver hvn] at hfv
     rw [hf, specOld_of_not_cmpGe _ _ _ _ hv]
     exact load_rejects fl p f ver hh hfv hv
@@ -475,7 +480,7 @@ theorem loadV07_eq_spec (fl : Rat → Rat) (hfl : ∀ x, |fl x - x| ≤ |x| / 2 
   · rw [load_saveV07 fl hfl p ver L hL hv]
     simp only [version07Ok, Bool.and_eq_true] at hv
     rw [specOld_of_cmpGe _ _ _ _ hv.1.1.2]; rfl
-  · obtain ⟨f, hf, hh, hfv⟩ := saveV07_ok fl ver L (layersOk_of_ok L hL)
+  · obtain ⟨f, hf, hh, hfv⟩ := saveV07_ok fl ver L (layersOk_of_ok L hL) (native_of_ok L hL)
     rw [stripNul_of_noNulEnd ver hvn] at hfv
     rw [hf, specOld_of_not_cmpGe _ _ _ _ hv]
     exact load_rejects fl p f ver hh hfv hv
@@ -486,5 +491,215 @@ example : version06Ok ['0','.','6','.','0','.','x'] = true ∧ version06Ok ['0',
     ∧ version07Ok ['0','.','7','.','3','.','d','e','v','1'] = true
     ∧ cmpGe ['0','.','5','.','9'] v060 = false ∧ cmpGe ['0','.','6','.','0','r','c','1'] v060 = false
     ∧ cmpGe ['0','.','x'] v060 = false := by decide
+
+/-! ## calibrations are associated by name, for every order of the calibration dict -/
+
+/-- **Every element comes back with its own calibration.**  For a laser inside the quantifier —
+whatever the order of its calibration dict — the loaded laser's calibration dict has the elements as
+keys, in element order, and holds under every key exactly what the saved laser held under it: the two
+dicts are equal as Python dicts. -/
+theorem load_save_calibration_by_name (fl : Rat → Rat) (hfl : ∀ x, |fl x - x| ≤ |x| / 2 ^ 53) (p : PathInfo)
+    (ver time : Str) (L : Laser) (hL : L.ok = true) (hv : versionOk ver = true) (ht : noNulEnd time = true) :
+    ∃ R, (save fl ver time L >>= load fl p) = .ok R ∧ keys R.cal = keys L.fields
+      ∧ ∀ k, dictGet R.cal k = dictGet L.cal k :=
+  ⟨_, load_save fl hfl p ver time L hL hv ht, keys_calByName _ _, dictGet_calByName_ok L (okFacts L hL)⟩
+
+/-- **The order of the calibration dict is irrelevant**: saving the laser with its calibration dict in
+any other order (any permutation `d` of it: an entry popped and re-inserted, the dict reassigned,
+rebuilt by `rename`) and loading gives the same object as saving and loading the laser itself. -/
+theorem load_save_cal_order_irrelevant (fl : Rat → Rat) (hfl : ∀ x, |fl x - x| ≤ |x| / 2 ^ 53) (p : PathInfo)
+    (ver time : Str) (L : Laser) (hL : L.ok = true) (hv : versionOk ver = true) (ht : noNulEnd time = true)
+    (d : List (Str × Cal)) (hd : d.Perm L.cal) :
+    (save fl ver time { L with cal := d } >>= load fl p) = (save fl ver time L >>= load fl p) := by
+  have F := okFacts L hL
+  have hkeys : (keys d).Perm (keys L.cal) := by unfold keys; exact hd.map _
+  have hdn : (keys d).Nodup := hkeys.nodup_iff.mpr F.cnodup
+  have hL' : ({ L with cal := d } : Laser).ok = true :=
+    ok_with_cal L hL d hdn (fun k hk => hkeys.mem_iff.mp hk) (fun k hk => hkeys.mem_iff.mpr hk)
+      (fun kc hkc => F.cal kc (hd.mem_iff.mp hkc))
+  rw [load_save fl hfl p ver time _ hL' hv ht, load_save fl hfl p ver time L hL hv ht]
+  simp only [normalise]
+  rw [calByName_congr L.fields d L.cal (fun k _ => dictGet_perm d L.cal hd hdn k)]
+
+/-- non-vacuity: `exLaserPerm` is `exLaser` with a permuted calibration dict -/
+example : exLaserPerm.cal.Perm exLaser.cal := List.Perm.swap _ _ _
+
+/-- the same for the two historical layouts: the per-element members are looked up by name -/
+theorem load_saveV07_cal_order_irrelevant (fl : Rat → Rat) (hfl : ∀ x, |fl x - x| ≤ |x| / 2 ^ 53) (p : PathInfo)
+    (ver : Str) (L : Laser) (hL : L.ok = true) (hv : version07Ok ver = true)
+    (d : List (Str × Cal)) (hd : d.Perm L.cal) :
+    (saveV07 fl ver { L with cal := d } >>= load fl p) = (saveV07 fl ver L >>= load fl p) := by
+  have F := okFacts L hL
+  have hkeys : (keys d).Perm (keys L.cal) := by unfold keys; exact hd.map _
+  have hdn : (keys d).Nodup := hkeys.nodup_iff.mpr F.cnodup
+  have hL' : ({ L with cal := d } : Laser).ok = true :=
+    ok_with_cal L hL d hdn (fun k hk => hkeys.mem_iff.mp hk) (fun k hk => hkeys.mem_iff.mpr hk)
+      (fun kc hkc => F.cal kc (hd.mem_iff.mp hkc))
+  rw [load_saveV07 fl hfl p ver _ hL' hv, load_saveV07 fl hfl p ver L hL hv]
+  simp only [normalise]
+  rw [calByName_congr L.fields d L.cal (fun k _ => dictGet_perm d L.cal hd hdn k)]
+
+/-! ## only the name / path / version keys are added -/
+
+/-- **What `load` adds to the info.**  `File Version` is the file's version, `File Path` the path
+loaded from, `Name` the stored name or else the file stem; every other key reads as in the stored
+info; and the keys are those of the stored info plus exactly these three. -/
+theorem finishInfo_spec (p : PathInfo) (ver : Str) (i : Info) (k : Str) :
+    dictGet (finishInfo p ver i) k =
+        (if k = kFileVersion then some ver
+         else if k = kFilePath then some p.resolved
+         else if k = kName then some ((dictGet i kName).getD p.stem)
+         else dictGet i k)
+    ∧ (k ∈ keys (finishInfo p ver i) ↔ k ∈ keys i ∨ k = kName ∨ k = kFilePath ∨ k = kFileVersion) :=
+  ⟨dictGet_finishInfo p ver i k, mem_keys_finishInfo p ver i k⟩
+
+example : dictGet (finishInfo ⟨['s'], ['/','s']⟩ ['1'] [(['k'], ['v'])]) kName = some ['s']
+    ∧ dictGet (finishInfo ⟨['s'], ['/','s']⟩ ['1'] [(kName, ['n']), (kFilePath, ['o'])]) kName = some ['n']
+    ∧ dictGet (finishInfo ⟨['s'], ['/','s']⟩ ['1'] [(kName, ['n']), (kFilePath, ['o'])]) kFilePath = some ['/','s'] := by
+  decide
+
+/-! ## histories: save, change the object through its public mutators, save again -/
+
+/-- **Every file of a history describes the object as it is at that moment.**  Run any sequence of
+steps — calls of the public mutators (`Op`: calibration dict and calibration edits, info edits,
+configuration attributes, `warmup` and `subpixel_offsets` setters, `set_equal_subpixel_offsets`,
+configuration replaced, `add` / `remove` / `rename`), `save` + `load`, going on with the loaded object —
+through the mechanism (`save` writes a file, `load` reads it).  If every state that gets saved is inside
+the quantifier (`historyOk`), the object returned by each load is `normalise` of the state the laser had
+when it was saved (`specHistory` never looks at a file, let alone an earlier one). -/
+theorem history_roundtrip (fl : Rat → Rat) (hfl : ∀ x, |fl x - x| ≤ |x| / 2 ^ 53) (ver time : Str)
+    (hv : versionOk ver = true) (ht : noNulEnd time = true)
+    (steps : List Step) (cur : Laser) (last : Option Laser) (h : historyOk fl ver steps cur last = true) :
+    runHistory fl ver time steps cur last = specHistory fl ver steps cur last :=
+  runHistory_eq_spec fl ver time (fun p L hL => load_save fl hfl p ver time L hL hv ht) steps cur last h
+
+/-- SRRConfig((0,3),(2,3)) with 6 warm-up samples at scan time 1/4 -/
+def exSRR2 : SRR :=
+  { spotsize := Flt.num 1, speed := Flt.num 2, scantime := 1 / 4, warmupN := 6, subSize := 3, subOffsets := [0, 2] }
+
+def exSRRLaser2 : Laser := { exSRRLaser with config := .srr exSRR2 }
+
+def exPath : PathInfo := ⟨['s'], ['/','s']⟩
+
+/-- save, `set_equal_subpixel_offsets(2)`, move a calibration to the end of the dict, save, go on with
+the loaded object, set the warm-up to 2 s, save -/
+def exSteps : List Step :=
+  [.save exPath, .op (.cfg (.equalOffsets 2)), .op (.calMoveEnd ['A']), .save exPath, .adopt,
+   .op (.cfg (.warmup 2)), .op (.infoSet ['k'] ['v','\t']), .save exPath]
+
+/-- non-vacuity of `history_roundtrip`: the hypothesis holds, three files are written, the second load
+has the equal offsets (size 2, offsets 0 and 1), not those of the first file, the third 8 warm-up samples -/
+example : historyOk id ['0','.','1','0','.','2'] exSteps exSRRLaser2 none = true
+    ∧ (specHistory id ['0','.','1','0','.','2'] exSteps exSRRLaser2 none).map (fun r => r.toOption.map (·.config))
+      = [some (.srr exSRR2), some (.srr { exSRR2 with subSize := 2, subOffsets := [0, 1] }),
+         some (.srr { exSRR2 with subSize := 2, subOffsets := [0, 1], warmupN := 8 })] := by
+  decide +kernel
+
+/-- `c = laser.calibration.pop(k); laser.calibration[k] = c` keeps a laser inside the quantifier, moves
+the entry to the end of the dict and changes nothing of the mapping -/
+theorem calMoveEnd_ok (fl : Rat → Rat) (L : Laser) (hL : L.ok = true) (k : Str) (hk : k ∈ keys L.cal) :
+    ∃ L', applyOp fl L (.calMoveEnd k) = .ok L' ∧ L'.ok = true
+      ∧ keys L'.cal = (keys L.cal).filter (· ≠ k) ++ [k] ∧ ∀ k', dictGet L'.cal k' = dictGet L.cal k' :=
+  ok_calMoveEnd fl L hL k hk
+
+example : applyOp id exLaser (.calMoveEnd ['A']) = .ok exLaserPerm := by decide +kernel
+
+/-- the two writers of the sub-pixel offsets keep an SRR configuration inside the quantifier:
+`set_equal_subpixel_offsets(w)` for `w ≥ 1`, the `subpixel_offsets` setter for a non-empty list of
+offsets with non-zero sizes -/
+theorem offsets_writers_ok (c : SRR) (hc : c.ok = true) :
+    (∀ w, 0 < w → (c.setEqualOffsets w).ok = true)
+    ∧ ∀ o : List (Int × Int), o ≠ [] → (∀ od ∈ o, od.2 ≠ 0) → (c.setOffsets o).ok = true :=
+  ⟨ok_setEqualOffsets c hc, ok_setOffsets c hc⟩
+
+example : (exSRR2.setEqualOffsets 4).subOffsets = [0, 1, 2, 3] ∧ (exSRR2.setOffsets [(0, 2), (1, 3), (2, 4)]).subSize = 12
+    ∧ (exSRR2.setOffsets [(0, 2), (1, 3), (2, 4)]).subOffsets = [0, 4, 6] := by decide +kernel
+
+/-- the `warmup` setter under float rounding: when the exact quotient `seconds / scantime` is at most
+2⁴⁰ in size and at least 2⁻¹⁰ away from every half-integer (`warmupDetermined`, evaluated by the driver
+for every generated history), every rounding function within relative error 2⁻⁵³ gives the number of
+samples the exact evaluation gives -/
+theorem warmup_setter_robust (fl : Rat → Rat) (hfl : ∀ x, |fl x - x| ≤ |x| / 2 ^ 53) (c : SRR) (seconds : Rat)
+    (h : warmupDetermined seconds c.scantime = true) : c.setWarmup fl seconds = c.setWarmup id seconds := by
+  simp only [SRR.setWarmup, id, setWarmup_robust fl hfl seconds c.scantime h]
+
+example : warmupDetermined (43 / 10) (1 / 10) = true ∧ warmupDetermined (5 / 4) (1 / 2) = false := by decide +kernel
+
+/-! ## an old file brought up to date -/
+
+/-- **Old files upgrade cleanly.**  Load a 0.6- or 0.7-layout file of `L`, save the loaded object with
+the current `save` and load that file: the result is `normalise` (current version) of what the old file
+loaded to — data, calibrations (by name) and configuration of `L`, the info the old layout carried, and
+`File Version` now the current one.  Hypotheses beyond those of `load_saveV06` / `load_saveV07`: the
+current version string is one `save` writes, no info value and neither the name nor the file stem ends
+in NUL. -/
+theorem old_layout_upgrade (fl : Rat → Rat) (hfl : ∀ x, |fl x - x| ≤ |x| / 2 ^ 53) (p : PathInfo)
+    (ver time v07 v06 : Str) (L : Laser) (hL : L.ok = true) (hv : versionOk ver = true) (ht : noNulEnd time = true)
+    (h7 : version07Ok v07 = true) (h6 : version06Ok v06 = true)
+    (hname : noNulEnd ((dictGet L.info kName).getD []) = true)
+    (hi : infoNoNul L.info = true) (hsn : noNulEnd p.stem = true) :
+    (saveV06 fl v06 L >>= load fl p >>= fun L1 => save fl ver time L1 >>= load fl p)
+        = .ok (normalise p ver (normaliseV06 p v06 L))
+    ∧ (saveV07 fl v07 L >>= load fl p >>= fun L1 => save fl ver time L1 >>= load fl p)
+        = .ok (normalise p ver (normalise p v07 L)) := by
+  have hv6n : noNulEnd v06 = true := by
+    simp only [version06Ok, Bool.and_eq_true] at h6; exact h6.1.1.1
+  have hv7n : noNulEnd v07 = true := by
+    simp only [version07Ok, Bool.and_eq_true] at h7; exact h7.1.1.1
+  constructor
+  · rw [load_saveV06 fl hfl p v06 L hL h6 hname]
+    have hok : (normaliseV06 p v06 L).ok = true := by
+      have := ok_loaded L hL (finishInfo p v06 [(kName, (dictGet L.info kName).getD [])])
+        (infoNoNul_finishInfo p v06 _ (by intro kv hkv; simp only [List.mem_singleton] at hkv; rw [hkv]; exact hname) hsn hv6n)
+      simpa only [normaliseV06] using this
+    exact load_save fl hfl p ver time _ hok hv ht
+  · rw [load_saveV07 fl hfl p v07 L hL h7]
+    have hok : (normalise p v07 L).ok = true := by
+      have := ok_loaded L hL (finishInfo p v07 (infoSpec L.info))
+        (infoNoNul_finishInfo p v07 _ (noNulEnd_infoSpec_values L.info hi) hsn hv7n)
+      simpa only [normalise] using this
+    exact load_save fl hfl p ver time _ hok hv ht
+
+/-- after the upgrade `File Version` is the current version, whatever the old file declared -/
+example : dictGet (normalise exPath ['0','.','1','0','.','2'] (normaliseV06 exPath ['0','.','6','.','7'] exLaser)).info kFileVersion
+    = some ['0','.','1','0','.','2'] := by decide +kernel
+
+/-- the SRR constructor under float rounding: when the exact quotient `warmup / scantime` is decided
+(`warmupDetermined`), every rounding function within relative error 2⁻⁵³ builds the state the exact
+evaluation builds (the driver constructs the initial state of a history exactly) -/
+theorem srr_constructor_robust (fl : Rat → Rat) (hfl : ∀ x, |fl x - x| ≤ |x| / 2 ^ 53) (a b : Flt) (s w : Rat)
+    (o : List (Int × Int)) (h : warmupDetermined w s = true) : SRR.mk' fl a b s w o = SRR.mk' id a b s w o := by
+  simp only [SRR.mk', id, setWarmup_robust fl hfl w s h]
+
+/-! ## SRR layers are stacked into a native-order array (known finding `C01-srr-byteorder`) -/
+
+/-- `exSRRLaser` with its field stored big-endian -/
+def exSRRSwapped : Laser := { exSRRLaser with fields := [(['A'], ['>','f','8'])] }
+
+/-- **The byte order of SRR fields is not kept** — the model follows the code here, and `Laser.ok`
+excludes such lasers: the stacked array `save` writes is native, so the laser loads with `'<f8'`
+(and would not equal `normalise`, which keeps `'>f8'`).  A `Laser` (one array) keeps its byte order:
+`load_save` covers it. -/
+theorem srr_byteorder_not_kept :
+    exSRRSwapped.ok = false
+    ∧ (save id ['0','.','1','0','.','2'] ['0'] exSRRSwapped >>= load id exPath).map (·.fields) = .ok [(['A'], ['<','f','8'])]
+    ∧ (normalise exPath ['0','.','1','0','.','2'] exSRRSwapped).fields = [(['A'], ['>','f','8'])]
+    ∧ ({ exLaser with fields := [(['A'], ['>','f','8']), (['B','\t','b'], ['>','i','2'])] } : Laser).ok = true := by
+  decide +kernel
+
+/-- **Configuration calls keep the configuration inside the quantifier and never change its class**:
+every attribute assignment, the `subpixel_offsets` setter (non-zero sizes), `set_equal_subpixel_offsets`
+and the `warmup` setter (at most 2⁵⁰ samples) applied to a configuration that is `Config.ok` give one that
+is — so `config_roundtrip`, hence `history_roundtrip`, applies to the file written after the call. -/
+theorem config_calls_ok (fl : Rat → Rat) (c c' : Config) (hc : c.ok = true) (o : CfgOp) (h : c.apply fl o = .ok c')
+    (ho : match o with
+      | .offsets ofs => ∀ od ∈ ofs, od.2 ≠ 0
+      | .warmup s => ∀ r, c = .srr r → (roundHalfEven (fl (s / r.scantime))).natAbs ≤ 2 ^ 50
+      | _ => True) : c'.ok = true ∧ c'.isSRR = c.isSRR :=
+  ⟨apply_ok fl c c' hc o h ho, apply_isSRR fl c c' o h⟩
+
+example : (Config.srr exSRR2).apply id (.equalOffsets 3) = .ok (.srr { exSRR2 with subSize := 3, subOffsets := [0, 1, 2] })
+    ∧ (Config.srr exSRR2).apply id (.scantime (fltOfRat (1 / 2))) = .ok (.srr { exSRR2 with scantime := 1 / 2 })
+    ∧ (Config.raster fzero fzero fzero).apply id (.equalOffsets 3) = .error .unmodelled := by decide +kernel
 
 end Pew.Npz
